@@ -24,6 +24,8 @@ def run(ck):
     ck.trusted += ['Coq 8.16.1 kernel + vm_compute', 'recording RFM subclass', 'bitwise comparison']
     ck.assumptions += ['float64 inputs hold float32-representable values (same abstract data)', 'equality of predictions across representations is observed']
     ck.check_theorems()
+    from harness import coerceops
+    coerceops.check_translation(ck)
     from harness import predops
     predops.check_translation(ck)
     rng = np.random.default_rng(ck.seed + 2020)
@@ -107,6 +109,53 @@ def run(ck):
                 cases.append((len(cases), cq))
                 if leaf_inputs[0][2] != 'torch.float32':
                     ck.violation(f'leaf targets have dtype {leaf_inputs[0][2]} for representation {rep}', dict(desc, rep=rep), key='leaf-dtype')
+    # ---- targets that are already binarised / one-hot FLOATS, fitted under a classification metric (the library's documented second way of passing
+    #      classification targets): float32 / float64, tensors / arrays, (n,) / (n,1) for the binary case, (n,K) one-hot; split and single-leaf trees
+    for i in range(ck.n(4, 12)):
+        K = [2, 3][i % 2]
+        n = int(rng.integers(90, 150)); d = 3
+        L = 10_000 if i % 4 == 3 else int(rng.integers(20, 40))
+        X = xr.make_X('random', n, d, rng); Xv = xr.make_X('random', 40, d, rng)
+        lab = xr.make_y('class', X, rng, n_classes=K); labv = xr.make_y('class', Xv, rng, n_classes=K)
+        Q = np.concatenate([xr.make_X('random', 9, d, rng), X[:20]]).astype(np.float32)
+        metric = ['brier', 'accuracy', 'logloss'][i % 3]
+        ctor = dict(rfm_params=xr.default_rfm_params(iters=1, reg=1e-2, bandwidth=3.0), max_leaf_size=L, verbose=False, tuning_metric=metric,
+                    use_temperature_tuning=False, refill_size=15)
+        desc = dict(kind='float-coded classes', i=i, K=K, n=n, L=L, metric=metric, seed=ck.seed)
+        if K == 2:
+            reps = [(c, dt, sh) for c in ('tensor', 'array') for dt in ('float32', 'float64') for sh in ('column', 'flat')]
+            enc = lambda a, dt, sh: a.astype(dt).reshape(-1, 1) if sh == 'column' else a.astype(dt)
+        else:
+            reps = [(c, dt, 'onehot') for c in ('tensor', 'array') for dt in ('float32', 'float64')]
+            enc = lambda a, dt, sh: np.eye(K, dtype=dt)[a]
+        ref = None
+        for (c, dt, sh) in reps:
+            rep = dict(y=(c, dt, sh))
+            wrap = (lambda a: torch.tensor(a)) if c == 'tensor' else (lambda a: a)
+            xr.seed_all(2100 + i + ck.seed)
+            model = xr.xRFM(**copy.deepcopy(ctor))
+            try:
+                with xr.quiet(), xr.recording_rfm() as log:
+                    import contextlib, io
+                    with contextlib.redirect_stderr(io.StringIO()):
+                        model.fit(wrap(X), wrap(enc(lab, dt, sh)), wrap(Xv), wrap(enc(labv, dt, sh)))
+                    leaf_inputs = [(r.rec_train[0].numpy().tobytes(), r.rec_train[1].numpy().tobytes(), str(r.rec_train[1].dtype), tuple(r.rec_train[1].shape)) for r in log if r.rec_is_leaf]
+                    pred = np.asarray(model.predict(wrap(Q))); proba = np.asarray(model.predict_proba(wrap(Q)))
+            except Exception as e:
+                ck.violation(f'representation {rep} of float-coded class targets is rejected ({e!r}) while {reps[0]} is accepted, on {desc}', dict(desc, rep=rep, error=repr(e)),
+                             key=json.dumps(dict(site='rejected-float-class', dtype=dt, shape=sh)))
+                continue
+            ck.case(dict(desc, rep=rep), nontrivial=any(t['type'] != 'leaf' for t in model.trees)); ck.count(f'float-coded classes y={c}/{dt}/{sh}')
+            cur = (leaf_inputs, pred.tobytes(), proba.tobytes())
+            if pred.shape != (len(Q),) or not np.issubdtype(pred.dtype, np.integer) or proba.shape != (len(Q), K):
+                ck.violation(f'float-coded class targets {rep}: predictions have shape {pred.shape} dtype {pred.dtype}, probabilities {proba.shape} on {desc}', dict(desc, rep=rep),
+                             key=json.dumps(dict(site='float-class-format')))
+            if ref is None:
+                ref = (cur, rep)
+            elif cur != ref[0]:
+                what = 'canonical leaf inputs' if cur[0] != ref[0][0] else 'predictions'
+                ck.violation(f'{what} for float-coded class targets {rep} differ from those of {ref[1]} on {desc}', dict(desc, rep=rep),
+                             key=json.dumps(dict(site='float-class-representation', dtype=dt, shape=sh)))
     res = ck.run_bool_cases('canon', HEADER, cases, shard=400)
     bad = [k for k, v in res.items() if v is not True]
     ck.obligation(f'correspondence: task type and canonical target format observed at the leaves == Coq canon_y / is_class on {len(cases)} representations',
